@@ -93,6 +93,10 @@ ATOMS = [
     {'name': 'eof', 'cxx': 'eof', 'cond': 'S == lf_n', 'len': '0'},
     {'name': 'success', 'cxx': 'success', 'cond': '1', 'len': '0', 'can_fail': False},
     {'name': 'failure', 'cxx': 'failure', 'cond': '0', 'len': '0', 'can_match': False},
+    {'name': 'bof', 'cxx': 'bof', 'cond': 'S == 0', 'len': '0'},
+    {'name': 'bol', 'cxx': 'bol', 'cond': 'S == 0', 'len': '0'},   # vf::run positions the cursor with bump_in_this_line: column 1 only at offset 0
+    {'name': 'require2', 'cxx': 'require< 2 >', 'cond': 'HAVE(2)', 'len': '0'},
+    {'name': 'discard', 'cxx': 'discard', 'cond': '1', 'len': '0', 'can_fail': False},
     {'name': 'g1', 'cxx': "seq< star< one< 'a' > >, sor< string< 'b', 'c' >, one< 'b' > >, not_at< any > >", 'spec': G1, 'cond': 'g1(&len)', 'len': 'len',
      'reach': [('er == 1 && len == 3', 'consumes 3')], 'alphabet': 'abc'},
     {'name': 'g2', 'cxx': "plus< sor< seq< one< 'a' >, at< one< 'b' > > >, range< 'b', 'c' > > >", 'spec': G2, 'cond': 'g2(&len)', 'len': 'len', 'split': True, 'alphabet': 'abc'},
